@@ -63,7 +63,8 @@ def handleFunnels (args : List String) (obs : String) : String :=
 def handleAdd (args : List String) (obs : String) : String :=
   match args with
   | [dts, dur] =>
-    match parseDT (dts.splitOn " "), dur.toNat? with
+    -- `<secs>+<nanos>`: the sub-second part of the duration does not move a time that names a whole second
+    match parseDT (dts.splitOn " "), ((dur.splitOn "+").head?.getD "").toNat? with
     | some dt, some d =>
       let model := match Time.add dt d with
         | some r => showDT r
